@@ -150,6 +150,22 @@ def check(prog, rep, rule, want=('accept', 'parsestream')):
                 ok = False
                 if p is not None and p['k'] in ('CXXConstructExpr', 'CXXTemporaryObjectExpr', 'CXXFunctionalCastExpr', 'CallExpr', 'CXXMemberCallExpr'):
                     ok = any(x['k'] == 'CXXMemberCallExpr' and (f.callee(x) or {}).get('n') in ('GetStringLength', 'GetSize', 'GetLength') for x in f.walk(p))
+                if not ok and p is not None and p['k'] in ('DeclStmt', 'VarDecl'):
+                    # the pointer is kept in a named temporary: it must reach a (pointer, length) construction together with a named temporary
+                    # (or a direct call) holding GetStringLength() of the same function
+                    ptr_decl = (p.get('decls') or [{}])[0].get('d')
+                    len_decls = set()
+                    for x in f.walk():
+                        if x['k'] == 'DeclStmt' and x.get('decls') and x.get('c') and any(
+                                y['k'] == 'CXXMemberCallExpr' and (f.callee(y) or {}).get('n') in ('GetStringLength', 'GetSize', 'GetLength') for y in f.walk(x['c'][0])):
+                            len_decls.add(x['decls'][0]['d'])
+                    for x in f.walk():
+                        if x['k'] in ('CXXConstructExpr', 'CXXTemporaryObjectExpr', 'CXXFunctionalCastExpr') and len(x.get('c', ())) >= 2:
+                            refs = [y.get('d') for y in f.walk(x) if y['k'] == 'DeclRefExpr']
+                            has_len = any(d_ in len_decls for d_ in refs) or any(
+                                y['k'] == 'CXXMemberCallExpr' and (f.callee(y) or {}).get('n') in ('GetStringLength', 'GetSize', 'GetLength') for y in f.walk(x))
+                            if ptr_decl in refs and has_len:
+                                ok = True
                 who = 'rapidjson ' + ('string buffer' if 'StringBuffer' in c['q'] else 'value')
                 if ok:
                     rep.ok(rule, 'GetString with its length|%s' % f.loc(n), sample={'at': f.loc(n)})
